@@ -140,15 +140,22 @@ def run_csv(script: dict, workdir: str) -> dict:
     path = os.path.join(workdir, f"bars-{os.getpid()}-{script['id']}.csv")
     write_csv(path, script["rows"], script["encoding"], tick_s, script["scale"], script["flavour"])
     pair = Pair("BTC", "USD")
+    # the rows' naive timestamps are wall-clock times of the zone the caller names: ticks are counted from T0 in that zone
+    tz = datetime.timezone(datetime.timedelta(minutes=int(script.get("tz_min", 0))))
+    T0z = T0.replace(tzinfo=tz)
+
+    def ticks(dt):
+        q, r = divmod((dt - T0z).total_seconds(), tick_s)
+        return int(q) if r == 0 and dt.utcoffset() == tz.utcoffset(None) else -999
     if script["flavour"] == "bitstamp":
         from basana.external.bitstamp.csv.bars import BarSource
-        src = BarSource(pair, path, script["period"], sort=script["sort"])
+        src = BarSource(pair, path, script["period"], sort=script["sort"], tzinfo=tz)
     elif script["flavour"] == "binance":
         from basana.external.binance.csv.bars import BarSource
-        src = BarSource(pair, path, script["period"], sort=script["sort"])
+        src = BarSource(pair, path, script["period"], sort=script["sort"], tzinfo=tz)
     else:
         from basana.external.yahoo.bars import CSVBarSource
-        src = CSVBarSource(pair, path, sort=script["sort"], tzinfo=UTC)
+        src = CSVBarSource(pair, path, sort=script["sort"], tzinfo=tz)
     events, error, exc = [], False, ""
     scale = script["scale"]
 
@@ -163,7 +170,7 @@ def run_csv(script: dict, workdir: str) -> dict:
             if ev is None:
                 break
             b = ev.bar
-            events.append({"when": int((ev.when - T0).total_seconds() // tick_s), "t": int((b.datetime - T0).total_seconds() // tick_s),
+            events.append({"when": ticks(ev.when), "t": ticks(b.datetime),
                            "o": units(b.open), "h": units(b.high), "l": units(b.low), "c": units(b.close), "v": units(b.volume)})
         loop.run_until_complete(src.finalize())
     except Exception as e:  # noqa: BLE001
